@@ -157,3 +157,72 @@ fn c04_ligature_selection() {
     std::mem::forget(subtables);
     std::mem::forget(cache);
 }
+
+/// After a context rule has matched, the lookup moves on past the WHOLE matched input sequence:
+/// the span returned for a rule with no nested lookups is the distance from the first to the
+/// last matched input glyph, counting the glyphs the lookup flag skipped in between.
+// @bound run of 4 glyphs with ids in 0..=3 and symbolic GDEF classes, lookup flag any combination of ignore-base / ignore-ligature / ignore-mark; a context with an input sequence of 2 glyphs (symbolic second id) that matches at position 0; no nested lookup records
+#[kani::proof]
+#[kani::unwind(8)]
+#[kani::stub(allsorts::binary::read::ReadScope::read_cache, crate::util::stub_read_cache)]
+#[kani::stub(std::collections::hash_map::RandomState::new, crate::util::stub_random_state)]
+fn c04_context_match_span() {
+    use allsorts::context::{GlyphTable, MatchContext};
+    use allsorts::gdef::GDEFTable;
+    use allsorts::layout::{ClassDef, LookupList};
+    let mut cbuf = [0u8; 14];
+    put16(&mut cbuf, 0, 1);
+    put16(&mut cbuf, 4, 4);
+    let class: [u16; 4] = kani::any();
+    let mut k = 0;
+    while k < 4 {
+        kani::assume(class[k] <= 3);
+        put16(&mut cbuf, 6 + 2 * k, class[k]);
+        k += 1;
+    }
+    let gdef = GDEFTable {
+        opt_glyph_classdef: Some(ReadScope::new(&cbuf).read::<ClassDef>().unwrap()),
+        opt_mark_attach_classdef: None,
+        opt_mark_glyph_sets: None,
+        opt_item_variation_store: None,
+    };
+    let flag: u16 = kani::any();
+    kani::assume(flag & !0x000E == 0);
+    let skipped = |g: u16| match class[g as usize] {
+        1 => flag & 0x0002 != 0,
+        2 => flag & 0x0004 != 0,
+        3 => flag & 0x0008 != 0,
+        _ => false,
+    };
+    let ids: [u16; 4] = kani::any();
+    kani::assume(ids[0] <= 3 && ids[1] <= 3 && ids[2] <= 3 && ids[3] <= 3);
+    let mut glyphs = vec![glyph(ids[0]), glyph(ids[1]), glyph(ids[2]), glyph(ids[3])];
+    let second: [u16; 1] = kani::any();
+    let mt = MatchType::from_lookup_flag(LookupFlag(flag), None);
+    let none: [u16; 0] = [];
+    let make = || MatchContext {
+        backtrack_table: GlyphTable::ById(&none),
+        input_table: GlyphTable::ById(&second),
+        lookahead_table: GlyphTable::ById(&none),
+    };
+    // the caller only gets here for a glyph the lookup visits and a rule that matched there
+    kani::assume(!skipped(ids[0]));
+    kani::assume(make().matches(Some(&gdef), mt, &glyphs, 0));
+    static LIST: [u8; 2] = [0, 0];
+    let lookup_list = ReadScope::new(&LIST).read::<LookupList<GSUB>>().unwrap();
+    let cache = gsub_cache();
+    let got = hook::apply_subst_context(&cache, &lookup_list, Some(&gdef), mt, make(), &[], 0, &mut glyphs).unwrap();
+    // the second input glyph is the first glyph after position 0 that the flag does not skip
+    let mut j = 1;
+    while j < 4 && skipped(ids[j]) {
+        j += 1;
+    }
+    assert!(j < 4 && ids[j] == second[0]);
+    assert!(got == Some((j + 1, 0)), "span of the matched input sequence");
+    kani::cover!(j == 3, "two skipped glyphs inside the match");
+    kani::cover!(j == 1, "adjacent");
+    std::mem::forget(glyphs);
+    std::mem::forget(lookup_list);
+    std::mem::forget(gdef);
+    std::mem::forget(cache);
+}
